@@ -76,10 +76,15 @@ __CPROVER_ensures(__CPROVER_return_value == JWK_KEY_OP_NONE || __CPROVER_return_
 /* the REAL jwk_process_values against the shape above (the frame is the point: kty-specific
  * fields such as curve, bits, pem, provider_data are out of its reach -- C08) plus what it
  * reports: alg by its exact RFC name, use "sig"/"enc" exactly, a non-string alg is an error */
+/* members other than the tracked one are strings of up to PV_MAX_STR characters: the unit sets it to 2^33 so
+ * that the copy of a kid is checked for EVERY length (defect F17: its length was kept in an int) */
+#ifndef PV_MAX_STR
+#define PV_MAX_STR 0x1000000
+#endif
 void contract_C08_jwk_process_values(json_t *jwk, jwk_item_t *item)
 __CPROVER_requires(VJ_IS_OBJECT(jwk))
 __CPROVER_requires(VJ_TRACKED_OK(jwk, g_vj_len_a))
-__CPROVER_requires(__CPROVER_is_fresh(g_json_key, 8) && SHORT7(g_json_key) && g_json_key[0] != 0 && g_vj_len_c < 0x1000000)
+__CPROVER_requires(__CPROVER_is_fresh(g_json_key, 8) && SHORT7(g_json_key) && g_json_key[0] != 0 && g_vj_len_c < PV_MAX_STR)
 __CPROVER_requires(__CPROVER_is_fresh(item, sizeof(*item)) && item->error_msg[JWT_ERR_LEN - 1] == 0)
 __CPROVER_requires(g_vj_len_d == 11)	/* length of the static array-element string of the jansson model */
 __CPROVER_assigns(PV_FRAME(item), g_lib_fail, g_last_strlen, g_last_strlen_arg, g_vj_elem, __CPROVER_object_whole(g_vj_elem_str))
@@ -95,6 +100,11 @@ __CPROVER_ensures((TRACK3('u', 's', 'e') && VJ_IS_STR(jwk) && KTY_IS(VJ_STR(jwk)
 __CPROVER_ensures((TRACK3('u', 's', 'e') && VJ_IS_STR(jwk) && KTY_IS(VJ_STR(jwk), 'e', 'n', 'c', 0) && item->error == 0) ==> item->use == JWK_PUB_KEY_USE_ENC)
 __CPROVER_ensures((TRACK3('u', 's', 'e') && !(VJ_IS_STR(jwk) && (KTY_IS(VJ_STR(jwk), 's', 'i', 'g', 0) || KTY_IS(VJ_STR(jwk), 'e', 'n', 'c', 0)))) ==> item->use == __CPROVER_old(item->use))
 __CPROVER_ensures(item->kid == __CPROVER_old(item->kid) || item->kid == NULL || __CPROVER_is_fresh(item->kid, 1))
+/* C08: a non-empty string kid is copied (the copy starts with the same character; its room is a CHECKED precondition of
+ * the strcpy model), unless the allocator failed; anything else leaves kid alone */
+__CPROVER_ensures((TRACK3('k', 'i', 'd') && VJ_IS_STR(jwk) && VJ_STR(jwk)[0] != 0 && g_lib_fail == 0 && item->error == 0) ==>
+	(item->kid != NULL && item->kid != VJ_STR(jwk) && item->kid[0] == VJ_STR(jwk)[0]))
+__CPROVER_ensures((TRACK3('k', 'i', 'd') && !(VJ_IS_STR(jwk) && VJ_STR(jwk)[0] != 0)) ==> item->kid == __CPROVER_old(item->kid))
 ;
 
 /* jwk_process_one: one JWK object -> one item; the caller's JSON is only read */
